@@ -271,6 +271,24 @@ let op_sym (args : sx) : string =
       Printf.sprintf "(ok %d %s %s 1 %d %s %s)" (if eq then 1 else 0) cmp cmp (if eq then 1 else 0) i1 (show_name (name_of_sx n1))
   | _ -> raise (Bad "sym")
 let classify_sym (_ : sx) (real : string) (_ : string) : string = if real = "(panic)" then "panic" else "symbol"
+(* tte spelling : the 15 accepted spellings of a TruthTableEntry (README), its predicates (tte_is_true of the model, and the two
+   others by constructor), Display and padded Display *)
+let op_tte (args : sx) : string =
+  match args with
+  | L [sp] ->
+      let s = String.concat "" (List.map (fun c -> String.make 1 (Char.chr (int_of_string (dec_of_n c)))) (name_of_sx sp)) in
+      let e = match s with
+        | "true" | "True" | "t" | "T" | "1" -> Some TTrue | "false" | "False" | "f" | "F" | "0" -> Some TFalse
+        | "any" | "Any" | "a" | "A" | "*" -> Some TAny | _ -> None in
+      (match e with
+       | None -> "(err)"
+       | Some e ->
+           let name = match e with TTrue -> "True" | TFalse -> "False" | TAny -> "Any" in
+           let enc (t : string) = "(" ^ String.concat " " (List.map (fun c -> string_of_int (Char.code c)) (List.init (String.length t) (String.get t))) ^ ")" in
+           let padl = String.make (7 - String.length name) ' ' ^ name and padr = name ^ String.make (6 - String.length name) ' ' in
+           Printf.sprintf "(ok %d %d %d %s %s)" (if tte_is_true e then 1 else 0) (match e with TFalse -> 1 | _ -> 0) (match e with TAny -> 1 | _ -> 0)
+             (enc name) (enc (padl ^ "|" ^ padr ^ "|")))
+  | _ -> raise (Bad "tte")
 
 (* evalx text1 text2 : both evaluated under the default order, then combined by the model's connectives *)
 let model_eval_default (txt : sx) : bdd option option =
@@ -325,6 +343,7 @@ let op_evalid (args : sx) : string = op_eval (rank_args args)
 let classify_evalid (args : sx) (real : string) (model : string) : string = classify_eval (rank_args args) real model
 let () =
   Hashtbl.replace table "sym" op_sym; Hashtbl.replace classifiers "sym" classify_sym;
+  Hashtbl.replace table "tte" op_tte; Hashtbl.replace classifiers "tte" classify_sym;
   Hashtbl.replace table "evalx" op_evalx; Hashtbl.replace classifiers "evalx" classify_evalx;
   Hashtbl.replace table "evalid" op_evalid; Hashtbl.replace classifiers "evalid" classify_evalid
 
@@ -756,12 +775,25 @@ let op_colors (args : sx) : string =
       let pairs = List.map (fun (x, y) -> let a = pr x and b = pr y in if a <= b then "(" ^ a ^ " " ^ b ^ ")" else "(" ^ b ^ " " ^ a ^ ")") (aug e order) in
       "(ok (" ^ String.concat " " (List.sort_uniq compare pairs) ^ "))"
   | _ -> raise (Bad "colors")
-let classify_gen (_ : sx) (real : string) (_ : string) : string =
+(* the conjuncts of a generated formula as a set: a different SET of conjuncts is a different formula (order and repetition
+   of conjuncts do not change the meaning) *)
+let rec show_sx = function A a -> a | L l -> "(" ^ String.concat " " (List.map show_sx l) ^ ")"
+let conjunct_set (s : string) : string list option =
+  match (try Some (parse_sx s) with Bad _ -> None) with
+  | Some (L [A "ok"; L items]) -> Some (List.sort_uniq compare (List.map show_sx items))
+  | _ -> None
+let sets_verdict (real : string) (model : string) : string =
+  match conjunct_set real, conjunct_set model with
+  | Some a, Some b -> if a <> b then "models" else "output"
+  | _ -> "output"
+let classify_gen (_ : sx) (real : string) (model : string) : string =
   if real = "(panic)" then "panic" else if real = "(not-a-formula)" then "illformed"
   else if real = "(vertex-list-not-a-permutation-of-the-vertices)" || real = "(copy-prefix-not-fresh)" || real = "(inconsistent-copy-prefix)" then "illformed"
   else "output"
+let classify_formula_gen (a : sx) (real : string) (model : string) : string =
+  match classify_gen a real model with "output" -> sets_verdict real model | v -> v
 let () =
-  List.iter (fun (n, f) -> Hashtbl.replace table n f; Hashtbl.replace classifiers n classify_gen)
+  List.iter (fun (n, f) -> Hashtbl.replace table n f; Hashtbl.replace classifiers n (if n = "queens" || n = "clique" then classify_formula_gen else classify_gen))
     [("queens", op_queens); ("queensbig", op_queensbig); ("sudoku", op_sudoku); ("clique", op_clique);
      ("graphcheck", op_graphcheck); ("convert", op_convert); ("colors", op_colors)];
   (* large boards are judged by structure only: number of constraints, cell names exactly v_0 .. v_(n*n-1); any deviation
@@ -806,8 +838,8 @@ let classify_sudoku (_ : sx) (real : string) (model : string) : string =
       | Some (L [A "ok"; L items]) -> Some (List.sort compare (List.filter_map (function L [A c; A d] -> Some (c, d) | _ -> None) items))
       | _ -> None in
     match hints real, hints model with
-    | Some h1, Some h2 -> if h1 <> h2 then "hints" else "output"
-    | _ -> "output"
+    | Some h1, Some h2 -> if h1 <> h2 then "hints" else sets_verdict real model
+    | _ -> sets_verdict real model
 let () = Hashtbl.replace classifiers "sudoku" classify_sudoku
 
 (* queenssols n : candidate placements come from a backtracking enumerator (glue); each is checked against the MODEL
